@@ -1330,7 +1330,7 @@ def add_invariant_checks(cls: ClassT) -> None:
             setattr(cls, "__new__", _decorate_new_with_invariants(new_func))
         else:
             wrapper = _decorate_with_invariants(func=init_func, is_init=True)
-            setattr(cls, init_func.__name__, wrapper)
+            setattr(cls, "__init__", wrapper)
 
     for name, func in names_funcs:
         wrapper = _decorate_with_invariants(func=func, is_init=False)
